@@ -58,7 +58,8 @@ type G struct {
 	i     int    // type index
 	tn    string // "T<i>"
 	t     *ty.Ty
-	gt    string // Go spelling of the type (same in q packages and main)
+	gt    string // Go spelling of the type as package main sees it
+	gtq   string // … as the derive package sees it (differs for the types q0 declares itself)
 	stats map[string]int
 	pool  []*ty.Val
 }
@@ -90,7 +91,7 @@ func (g *G) withMutations(f func(x, mu *ty.Val)) {
 }
 
 func (g *G) emitEqual() {
-	i, gt, q := g.i, g.gt, g.q
+	i, gt, q := g.i, g.gtq, g.q
 	fmt.Fprintf(q, "\nfunc Equal_%d(a, b %s) bool { return deriveEqual_%d(a, b) }\n", i, gt, i)
 	fmt.Fprintf(q, "func EqualC_%d(a, b %s) bool { return deriveEqualC_%d(a)(b) }\n", i, gt, i)
 	g.reg("equal", 2, fmt.Sprintf("return rt.Bool(%s.Equal_%d(x, y))", g.qn, i))
@@ -117,6 +118,7 @@ func (g *G) emitEqual() {
 	g.withMutations(func(x, mu *ty.Val) {
 		g.ow.op("equal", g.tn, x.Wire(), mu.Wire())
 		g.ow.op("equal", g.tn, mu.Wire(), x.Wire())
+		g.ow.op("equalc", g.tn, x.Wire(), mu.Wire()) // the curried form on every one-leaf difference as well
 		if asField {
 			g.ow.op("equalf", g.tn, x.Wire(), mu.Wire())
 		}
@@ -129,7 +131,7 @@ func (g *G) emitCompare(withEqual bool) {
 	if !gen.MethodsAgree(g.env, g.t, "Cv", "\x00") {
 		ceq = "cmpeqv"
 	}
-	i, gt, q := g.i, g.gt, g.q
+	i, gt, q := g.i, g.gtq, g.q
 	fmt.Fprintf(q, "\nfunc Compare_%d(a, b %s) int { return deriveCompare_%d(a, b) }\n", i, gt, i)
 	fmt.Fprintf(q, "func CompareC_%d(a, b %s) int { return deriveCompareC_%d(a)(b) }\n", i, gt, i)
 	fmt.Fprintf(q, "type FWC_%d struct{ F %s }\n", i, gt)
@@ -161,6 +163,7 @@ func (g *G) emitCompare(withEqual bool) {
 		g.ow.op("compare", g.tn, x.Wire(), mu.Wire())
 		g.ow.op("compare", g.tn, mu.Wire(), x.Wire())
 		g.ow.op("comparef", g.tn, mu.Wire(), x.Wire())
+		g.ow.op("comparec", g.tn, x.Wire(), mu.Wire())
 		if withEqual {
 			g.ow.op(ceq, g.tn, x.Wire(), mu.Wire())
 		}
@@ -168,7 +171,7 @@ func (g *G) emitCompare(withEqual bool) {
 }
 
 func (g *G) emitHash(withEqual bool) {
-	i, gt, q := g.i, g.gt, g.q
+	i, gt, q := g.i, g.gtq, g.q
 	fmt.Fprintf(q, "\nfunc Hash_%d(a %s) uint64 { return deriveHash_%d(a) }\n", i, gt, i)
 	fmt.Fprintf(q, "type FWH_%d struct{ F %s }\n", i, gt)
 	// hash of the one-field wrapper is 31*17 + field expression: the driver subtracts the constant
@@ -240,7 +243,7 @@ func (g *G) priors(src *ty.Val) []*ty.Val {
 }
 
 func (g *G) emitDeepCopy() {
-	i, gt, q := g.i, g.gt, g.q
+	i, gt, q := g.i, g.gtq, g.q
 	fmt.Fprintf(q, "\nfunc DeepCopy_%d(dst, src %s) { deriveDeepCopy_%d(dst, src) }\n", i, gt, i)
 	body := fmt.Sprintf(`vx, vy := reflect.ValueOf(&x).Elem(), reflect.ValueOf(&y).Elem()
 		s0 := rt.NewObs().Observe(vx)
@@ -273,7 +276,7 @@ func (g *G) emitDeepCopy() {
 }
 
 func (g *G) emitClone() {
-	i, gt, q := g.i, g.gt, g.q
+	i, gt, q := g.i, g.gtq, g.q
 	fmt.Fprintf(q, "\nfunc Clone_%d(src %s) %s { return deriveClone_%d(src) }\n", i, gt, gt, i)
 	body := fmt.Sprintf(`vx := reflect.ValueOf(&x).Elem()
 		s0 := rt.NewObs().Observe(vx)
@@ -300,7 +303,7 @@ func main() {
 	if *thorough {
 		n2, extra, cap = 0, 150, 16
 	}
-	c := gen.NewCorpus(rng, *thorough, n2, extra)
+	c := gen.NewCorpusEnv(gen.LibLocal(), rng, *thorough, n2, extra)
 	env := c.Env
 	want := map[string]bool{}
 	for _, p := range strings.Split(*plugins, ",") {
@@ -331,7 +334,42 @@ func main() {
 	}
 	var qs []*strings.Builder
 	var qtypes [][]*ty.Ty
+	mentionsLocal := func(t *ty.Ty) bool {
+		local := false
+		gen.Walk(env, t, gen.CtxTop, map[int]bool{}, func(x *ty.Ty, ctx int) {
+			if x.K == ty.Named && env.Decls[x.N].Pkg == gen.LocalPkg {
+				local = true
+			}
+		})
+		return local
+	}
+	newQ := func() int {
+		sb := &strings.Builder{}
+		fmt.Fprintf(sb, "package q%d\n\nimport (\n\t\"corpus/ext\"\n\t\"corpus/p\"\n)\n\nvar _ ext.XN\nvar _ p.NI\n", len(qs))
+		qs = append(qs, sb)
+		qtypes = append(qtypes, nil)
+		return len(qs) - 1
+	}
+	// q0 declares the local types; every corpus type that mentions one of them lives there (placed first, so that
+	// the other types are spread around them)
+	newQ()
+	for _, d := range env.Decls {
+		if d.Pkg == gen.LocalPkg {
+			fmt.Fprintf(qs[0], "\ntype %s %s\n", d.Name, d.Under.Go(env, gen.LocalPkg))
+			if d.Methods != "" {
+				qs[0].WriteString("\n" + gen.MethodSrc(d))
+			}
+		}
+	}
+	for _, t := range c.Types {
+		if mentionsLocal(t) {
+			qtypes[0] = append(qtypes[0], t)
+		}
+	}
 	pkgOf := func(t *ty.Ty) int {
+		if mentionsLocal(t) {
+			return 0
+		}
 		for qi := range qs {
 			clash := false
 			for _, o := range qtypes[qi] {
@@ -345,11 +383,9 @@ func main() {
 				return qi
 			}
 		}
-		sb := &strings.Builder{}
-		fmt.Fprintf(sb, "package q%d\n\nimport (\n\t\"corpus/ext\"\n\t\"corpus/p\"\n)\n\nvar _ ext.XN\nvar _ p.NI\n", len(qs))
-		qs = append(qs, sb)
-		qtypes = append(qtypes, []*ty.Ty{t})
-		return len(qs) - 1
+		qi := newQ()
+		qtypes[qi] = []*ty.Ty{t}
+		return qi
 	}
 
 	var prelude strings.Builder
@@ -358,6 +394,9 @@ func main() {
 		// calls: all of them are "external" for the generator; a field is private (goderive's Field.Private)
 		// when its first byte is not changed by lower-casing
 		flags := "e"
+		if d.Pkg == gen.LocalPkg {
+			flags = "l" // declared in the derive package itself: not external
+		}
 		if d.Priv {
 			flags += "p"
 		}
@@ -387,6 +426,7 @@ func main() {
 		g.gt = t.Go(env, "main")
 		qi := pkgOf(t)
 		g.q, g.qn = qs[qi], fmt.Sprintf("q%d", qi)
+		g.gtq = t.Go(env, g.qn)
 		fmt.Fprintf(&m, "\tt%d := reflect.TypeOf((*%s)(nil)).Elem()\n\t_ = t%d\n", i, g.gt, i)
 		g.stats["head:"+kindName(env.Under(t).K)]++
 		g.pool = g.vg.Pool(t)
